@@ -245,4 +245,4 @@ fn test_samples_be() {
 // verification hook: inert unless built by `cargo kani` (cfg(kani)); see /verif/DESIGN.md
 #[cfg(kani)]
 #[path = "/verif/harness/byteorder.rs"]
-mod verif_k;
+pub(crate) mod verif_k;
